@@ -33,19 +33,27 @@
 typedef unsigned char u8;
 
 /* ------------------------------------------------------------------ independent TLS 1.3 primitives (RFC 8446 7.1, 5.2, 5.3) */
-static void sha256(const u8 *d, size_t n, u8 out[32]) { unsigned int l = 32; EVP_Digest(d, n, out, &l, EVP_sha256(), NULL); }
-static void hmac256(const u8 *k, size_t kl, const u8 *d, size_t dl, u8 out[32]) { unsigned int l = 32; HMAC(EVP_sha256(), k, (int) kl, d, dl, out, &l); }
-static void hkdf_label(const u8 secret[32], const char *label, const u8 *ctx, size_t ctxl, u8 *out, size_t outl)
+typedef struct { int id; const char *name; int hl, kl, chacha; } suite_t;
+static const suite_t suites[] = { { 0x1301, "aes128gcm-sha256", 32, 16, 0 }, { 0x1302, "aes256gcm-sha384", 48, 32, 0 }, { 0x1303, "chacha20poly1305-sha256", 32, 32, 1 } };
+#define NSUITES 3
+static const suite_t *SU = &suites[0];                        /* the suite the attacker's ServerHello selects: fixes hash and AEAD of everything below */
+#define HL (SU->hl)
+#define HMAX 48
+static const EVP_MD *md_of(int hl) { return hl == 48 ? EVP_sha384() : EVP_sha256(); }
+static void thash(const u8 *d, size_t n, u8 *out) { unsigned int l = HMAX; EVP_Digest(d, n, out, &l, md_of(HL), NULL); }
+static void hmac_md(int hl, const u8 *k, size_t kl, const u8 *d, size_t dl, u8 *out) { unsigned int l = HMAX; HMAC(md_of(hl), k, (int) kl, d, dl, out, &l); }
+static void thmac(const u8 *k, size_t kl, const u8 *d, size_t dl, u8 *out) { hmac_md(HL, k, kl, d, dl, out); }
+static void hkdf_label(const u8 *secret, const char *label, const u8 *ctx, size_t ctxl, u8 *out, size_t outl)
 {
-    u8 info[128], t[32]; size_t n = 0, ll = strlen(label);
+    u8 info[160], t[HMAX]; size_t n = 0, ll = strlen(label);
     info[n++] = (u8) (outl >> 8); info[n++] = (u8) outl; info[n++] = (u8) (6 + ll); memcpy(info + n, "tls13 ", 6); n += 6; memcpy(info + n, label, ll); n += ll;
     info[n++] = (u8) ctxl; if (ctxl) { memcpy(info + n, ctx, ctxl); n += ctxl; }
-    info[n++] = 1;                                            /* one HKDF-Expand block: outl <= 32 */
-    hmac256(secret, 32, info, n, t); memcpy(out, t, outl);
+    info[n++] = 1;                                            /* one HKDF-Expand block: outl <= hash length */
+    thmac(secret, HL, info, n, t); memcpy(out, t, outl);
 }
-static void derive_secret(const u8 secret[32], const char *label, const u8 *msgs, size_t ml, u8 out[32]) { u8 h[32]; sha256(msgs, ml, h); hkdf_label(secret, label, h, 32, out, 32); }
-typedef struct { u8 key[16], iv[12]; unsigned long long seq; } tkeys_t;
-static void traffic_keys(const u8 secret[32], tkeys_t *k) { hkdf_label(secret, "key", NULL, 0, k->key, 16); hkdf_label(secret, "iv", NULL, 0, k->iv, 12); k->seq = 0; }
+static void derive_secret(const u8 *secret, const char *label, const u8 *msgs, size_t ml, u8 *out) { u8 h[HMAX]; thash(msgs, ml, h); hkdf_label(secret, label, h, HL, out, HL); }
+typedef struct { u8 key[32], iv[12]; unsigned long long seq; } tkeys_t;
+static void traffic_keys(const u8 *secret, tkeys_t *k) { hkdf_label(secret, "key", NULL, 0, k->key, SU->kl); hkdf_label(secret, "iv", NULL, 0, k->iv, 12); k->seq = 0; }
 /* protect one TLSInnerPlaintext; returns the record length */
 static int protect(tkeys_t *k, u8 innerType, const u8 *pt, int ptl, u8 *out)
 {
@@ -54,9 +62,9 @@ static int protect(tkeys_t *k, u8 innerType, const u8 *pt, int ptl, u8 *out)
     for (int i = 0; i < 8; i++) nonce[11 - i] ^= (u8) (k->seq >> (8 * i));
     k->seq++;
     out[0] = 23; out[1] = 3; out[2] = 3; out[3] = (u8) (total >> 8); out[4] = (u8) total;
-    EVP_EncryptInit_ex(c, EVP_aes_128_gcm(), NULL, NULL, NULL); EVP_CIPHER_CTX_ctrl(c, EVP_CTRL_GCM_SET_IVLEN, 12, NULL); EVP_EncryptInit_ex(c, NULL, NULL, k->key, nonce);
+    EVP_EncryptInit_ex(c, SU->chacha ? EVP_chacha20_poly1305() : SU->kl == 32 ? EVP_aes_256_gcm() : EVP_aes_128_gcm(), NULL, NULL, NULL); EVP_CIPHER_CTX_ctrl(c, EVP_CTRL_AEAD_SET_IVLEN, 12, NULL); EVP_EncryptInit_ex(c, NULL, NULL, k->key, nonce);
     EVP_EncryptUpdate(c, NULL, &l, out, 5); EVP_EncryptUpdate(c, out + 5, &l, inner, ptl + 1); EVP_EncryptFinal_ex(c, out + 5 + l, &l);
-    EVP_CIPHER_CTX_ctrl(c, EVP_CTRL_GCM_GET_TAG, 16, out + 5 + ptl + 1); EVP_CIPHER_CTX_free(c);
+    EVP_CIPHER_CTX_ctrl(c, EVP_CTRL_AEAD_GET_TAG, 16, out + 5 + ptl + 1); EVP_CIPHER_CTX_free(c);
     return 5 + total;
 }
 
@@ -85,8 +93,14 @@ static int ecdhe(int group, const u8 *peer, int peerl, vf_rng *r, u8 *mypub, int
 }
 
 /* ------------------------------------------------------------------ the grid */
-enum { ST_FRESH = 0, ST_TICKET, ST_EARLY, ST_EXTPSK, ST_N };
-static const char *stname[] = { "fresh", "ticket", "ticket+early-data", "external-psk" };
+enum { ST_FRESH = 0, ST_TICKET, ST_EARLY, ST_EXTPSK, ST_N /* states of the main grid */, ST_TICKET384 = ST_N, ST_EXTPSK384, ST_NALL };
+static const char *stname[] = { "fresh", "ticket", "ticket+early-data", "external-psk", "ticket-issued-under-sha384-suite", "external-psk-sha384" };
+/* what the attacker guesses the client's Early Secret to be (it only has to guess what the client computed) */
+enum { SC_STD = 0,        /* RFC 8446 with PSK = 0: HKDF-Extract(0, 0^Hash.length) */
+       SC_ZERO_EARLY,     /* an Early Secret buffer that was never derived: all zero, used directly */
+       SC_OTHER_HASH,     /* HKDF-Extract(0, 0) computed under the OTHER hash family, truncated / zero-padded to the negotiated length */
+       SC_N };
+static const char *scname[] = { "standard-psk0", "zero-early-secret", "other-hash-early-secret" };
 static const char *cbn[] = { "no-callback", "strict-callback" };
 enum { CL_DEFAULT = 0, CL_X25519, CL_P256, CL_TWO, CL_N };                      /* which key shares the client offers */
 static const char *clname[] = { "default-groups", "x25519-share", "p256-share", "two-shares" };
@@ -106,11 +120,12 @@ enum { T_FIN = 0, T_CERT_FIN, T_CERT_CVRAND_FIN, T_CERT_CVZERO_FIN, T_CR_FIN,
 static const char *tname[] = { "finished", "cert+finished", "cert+cv-random+finished", "cert+cv-zero+finished", "certreq+finished",
                                "cv-random+finished", "certreq+cert+finished", "ec-cert+cv-random-ecdsa+finished", "empty-cert+finished", "cert+cv-empty+finished", "?",
                                "legal:cert+cv-rsa-pss+finished", "legal:ec-cert+cv-ecdsa+finished" };
-typedef struct { int st, cb, cl, ff, shpsk /* value or -1 */, ks /* ServerHello key_share present */, ee /* 1: early_data in EncryptedExtensions */, tail, control; } k13_t;
+typedef struct { int st, cb, cl, ff, shpsk /* value or -1 */, ks /* ServerHello key_share present */, ee /* 1: early_data in EncryptedExtensions */, tail, control;
+                 int su /* index of the suite the attacker selects */, multi /* 1: the client offers 0x1301, 0x1302 and 0x1303 */, sched; } k13_t;
 
 static u8 certRsa[4096], certEc[4096]; static int certRsaL, certEcL; static EVP_PKEY *keyRsa, *keyEc;
-static sslSessionId_t *sids[ST_N]; static sslKeys_t *extpskKeys;
-static char cur_desc[256];
+static sslSessionId_t *sids[ST_NALL]; static sslKeys_t *extpskKeys, *extpsk384Keys;
+static char cur_desc[400];
 static const char INJECT[] = "INJECTED";
 
 static int load_der(const char *path, u8 *out, int cap) { FILE *f = fopen(path, "r"); if (!f) return -1; X509 *x = PEM_read_X509(f, NULL, NULL, NULL); fclose(f); if (!x) return -1;
@@ -118,9 +133,9 @@ static int load_der(const char *path, u8 *out, int cap) { FILE *f = fopen(path, 
 static EVP_PKEY *load_key(const char *path) { FILE *f = fopen(path, "r"); if (!f) return NULL; EVP_PKEY *k = PEM_read_PrivateKey(f, NULL, NULL, NULL); fclose(f); return k; }
 
 /* honest priming connection: the client obtains a TLS 1.3 resumption PSK (NewSessionTicket) from the real MatrixSSL server */
-static int prime(sslSessionId_t *sid, int early)
+static int prime(sslSessionId_t *sid, int early, int suite)
 {
-    mx_cfg c = { .ver = MX_TLS13, .suite = 0x1301, .earlyData = early ? 16384 : 0 }; mx_conn k;
+    mx_cfg c = { .ver = MX_TLS13, .suite = (uint16_t) suite, .earlyData = early ? 16384 : 0 }; mx_conn k;
     if (mx_conn_open(&k, &c, sid) != 0) return -1;
     mx_conn_run(&k, NULL, NULL, 300); int ok = mx_conn_established(&k);
     if (ok) { u8 p[32]; mx_payload(p, 32, 0x0c04, 1, 1); mx_send(&k.s, p, 32); mx_conn_run(&k, NULL, NULL, 50); ok = k.c.gotlen == 32; }
@@ -165,7 +180,7 @@ static const u8 HRR_RANDOM[32] = { 0xCF, 0x21, 0xAD, 0x74, 0xE5, 0x9A, 0x61, 0x1
 static int build_hello(u8 *m, const u8 rnd[32], const u8 *sid, int sidl, const u8 *exts, int el)
 {
     int n = 4; m[n++] = 3; m[n++] = 3; memcpy(m + n, rnd, 32); n += 32; m[n++] = (u8) sidl; memcpy(m + n, sid, sidl); n += sidl;
-    m[n++] = 0x13; m[n++] = 0x01; m[n++] = 0; m[n++] = (u8) (el >> 8); m[n++] = (u8) el; memcpy(m + n, exts, el); n += el;
+    m[n++] = (u8) (SU->id >> 8); m[n++] = (u8) SU->id; m[n++] = 0; m[n++] = (u8) (el >> 8); m[n++] = (u8) el; memcpy(m + n, exts, el); n += el;
     m[0] = 2; m[1] = 0; m[2] = (u8) ((n - 4) >> 8); m[3] = (u8) (n - 4);
     return n;
 }
@@ -181,10 +196,10 @@ static int build_cr(u8 *m) { static const u8 b[] = { 0, 0, 12, 0, 13, 0, 8, 0, 6
 /* a genuine CertificateVerify signature (controls only: this needs the private key the attacker does not have) */
 static int sign_cv(EVP_PKEY *key, int pss, const u8 *tr, int trl, u8 *sig)
 {
-    u8 content[64 + 33 + 1 + 32]; memset(content, 0x20, 64); memcpy(content + 64, "TLS 1.3, server CertificateVerify", 33); content[97] = 0; sha256(tr, trl, content + 98);
+    u8 content[64 + 33 + 1 + HMAX]; memset(content, 0x20, 64); memcpy(content + 64, "TLS 1.3, server CertificateVerify", 33); content[97] = 0; thash(tr, trl, content + 98);
     EVP_MD_CTX *x = EVP_MD_CTX_new(); EVP_PKEY_CTX *px = NULL; size_t sl = 600; int ok = EVP_DigestSignInit(x, &px, EVP_sha256(), NULL, key) > 0;
     if (ok && pss) ok = EVP_PKEY_CTX_set_rsa_padding(px, RSA_PKCS1_PSS_PADDING) > 0 && EVP_PKEY_CTX_set_rsa_pss_saltlen(px, 32) > 0;
-    ok = ok && EVP_DigestSign(x, sig, &sl, content, sizeof content) > 0; EVP_MD_CTX_free(x);
+    ok = ok && EVP_DigestSign(x, sig, &sl, content, 98 + HL) > 0; EVP_MD_CTX_free(x);
     return ok ? (int) sl : -1;
 }
 
@@ -195,9 +210,9 @@ static int k13_client(mx_ep *e, const k13_t *k, sslSessionId_t *sid)
     mx_cfg cfg = { .ver = MX_TLS13, .suite = 0x1301 }; sslSessOpts_t o; mx_opts(&o, &cfg, MX_CLIENT);
     uint16_t gx[3] = { 0x001d, 0x0017, 0x0018 }, gp[3] = { 0x0017, 0x001d, 0x0018 };
     if (k->cl == CL_X25519) matrixSslSessOptsSetKeyExGroups(&o, gx, 3, 1); else if (k->cl == CL_P256) matrixSslSessOptsSetKeyExGroups(&o, gp, 3, 1); else if (k->cl == CL_TWO) matrixSslSessOptsSetKeyExGroups(&o, gx, 3, 2);
-    memset(e, 0, sizeof *e); e->role = MX_CLIENT; e->ver = MX_TLS13; e->id = 0; e->name = "C"; e->sid = sid; psCipher16_t cs[1] = { 0x1301 };
+    memset(e, 0, sizeof *e); e->role = MX_CLIENT; e->ver = MX_TLS13; e->id = 0; e->name = "C"; e->sid = sid; psCipher16_t cs[3] = { 0x1301, 0x1302, 0x1303 };
     mx_actor = 0; MX_ENTER();
-    int rc = matrixSslNewClientSession(&e->ssl, k->st == ST_EXTPSK ? extpskKeys : mx_keys.cli, sid, cs, 1, k->cb ? mx_cert_cb_strict : NULL, NULL, NULL, NULL, &o);
+    int rc = matrixSslNewClientSession(&e->ssl, k->st == ST_EXTPSK ? extpskKeys : k->st == ST_EXTPSK384 ? extpsk384Keys : mx_keys.cli, sid, cs, k->multi ? 3 : 1, k->cb ? mx_cert_cb_strict : NULL, NULL, NULL, NULL, &o);
     MX_LEAVE(); e->wantTake = 1;
     return rc < 0 ? rc : 0;
 }
@@ -205,7 +220,8 @@ static int k13_client(mx_ep *e, const k13_t *k, sslSessionId_t *sid)
 static void script_name(const k13_t *k, char *out, size_t cap)
 {
     char p[24]; if (k->shpsk < 0) snprintf(p, sizeof p, "absent"); else snprintf(p, sizeof p, "%d", k->shpsk);
-    snprintf(out, cap, "%s/%s/sh-psk-%s%s%s/%s", clname[k->cl], ffname[k->ff], p, k->ks ? "" : "+no-key-share", k->ee ? "/ee-early-data" : "", tname[k->tail]);
+    char pre[80] = "", post[48] = ""; if (k->multi) snprintf(pre, sizeof pre, "client-offers-3-suites/attacker-picks-%s/", suites[k->su].name); if (k->sched) snprintf(post, sizeof post, "/guess-%s", scname[k->sched]);
+    snprintf(out, cap, "%s%s/%s/sh-psk-%s%s%s/%s%s", pre, clname[k->cl], ffname[k->ff], p, k->ks ? "" : "+no-key-share", k->ee ? "/ee-early-data" : "", tname[k->tail], post);
 }
 
 /* the script is played to its end unless the client stops taking input; `stage` is the message after which the client first raised an error */
@@ -213,13 +229,13 @@ static void script_name(const k13_t *k, char *out, size_t cap)
 #define AT(name) do { if (!STOPPED()) stage = (name); } while (0)
 static void run_k13(void *a_)
 {
-    const k13_t *k = a_; char scr[160]; script_name(k, scr, sizeof scr);
-    static u8 tr[24000], rec[24000], hs[8000]; int trl = 0, n, o, el; u8 exts[400], srnd[32], h[32], zeros[32] = { 0 };
-    u8 early[32], derived[32], hsSecret[32], sHs[32], master[32], sAp[32], finKey[32], verify[32], mypub[200], shared[64]; int mypubl = 0, sharedl = 0;
+    const k13_t *k = a_; char scr[240]; script_name(k, scr, sizeof scr); SU = &suites[k->su];
+    static u8 tr[24000], rec[24000], hs[8000]; int trl = 0, n, o, el; u8 exts[400], srnd[32], h[HMAX], zeros[HMAX] = { 0 };
+    u8 early[HMAX], derived[HMAX], hsSecret[HMAX], sHs[HMAX], master[HMAX], sAp[HMAX], finKey[HMAX], verify[HMAX], mypub[200], shared[64]; int mypubl = 0, sharedl = 0;
     tkeys_t kHs, kAp; ch_t ch; mx_ep C; unsigned char *out = NULL; const char *stage = "client-hello"; int alert = -1, crypto_known = 0;
     vf_rng R; vf_rng_init(&R, vf_seed, vf_hash(cur_desc, strlen(cur_desc)));
-    vf_stat("cases", 1); vf_stat(k->control ? "keyless13_controls" : "keyless13_attack_cases", 1);
-    if (k13_client(&C, k, k->st == ST_FRESH || k->st == ST_EXTPSK ? NULL : sids[k->st]) < 0) { vf_incon("keyless13: client session (%s)", cur_desc); return; }
+    vf_stat("cases", 1); vf_stat(k->control == 1 ? "keyless13_controls" : k->control ? "keyless13_probes" : "keyless13_attack_cases", 1);
+    if (k13_client(&C, k, k->st == ST_FRESH || k->st == ST_EXTPSK || k->st == ST_EXTPSK384 ? NULL : sids[k->st]) < 0) { vf_incon("keyless13: client session (%s)", cur_desc); return; }
     if (k->st == ST_EARLY) { if (matrixSslGetMaxEarlyData(C.ssl) <= 0) { vf_incon("keyless13: early data not available to the client"); return; } u8 p[48]; mx_payload(p, 48, 0x0c04, 0, 7); if (mx_send(&C, p, 48) < 0) { vf_incon("keyless13: early data refused"); return; } }
     n = mx_take(&C, &out);
     if (ch_parse(out, n, &ch) != 0 || ch.nshares < 1) { vf_incon("keyless13: no parsable ClientHello (%d bytes)", n); return; }
@@ -234,7 +250,7 @@ static void run_k13(void *a_)
             for (int p = 0; p < 3 && !grp; p++) { int sup = 0, have = 0; for (int i = 0; i < ch.ngroups; i++) sup |= ch.groups[i] == pref[p]; for (int j = 0; j < ch.nshares; j++) have |= ch.sh[j].group == pref[p]; if (sup && !have) grp = pref[p]; } }
         if (!grp) { vf_incon("keyless13: no group to ask for in a HelloRetryRequest"); return; }
         vf_statf(1, "k13_hrr_%s_asks_%s", FF_IS_SAME(k->ff) ? "same" : "other", gname(grp));
-        tr[0] = 254; tr[1] = 0; tr[2] = 0; tr[3] = 32; sha256(ch.msg, ch.len, tr + 4); trl = 36;          /* message_hash(ClientHello1), RFC 8446 4.4.1 */
+        tr[0] = 254; tr[1] = 0; tr[2] = 0; tr[3] = (u8) HL; thash(ch.msg, ch.len, tr + 4); trl = 4 + HL;          /* message_hash(ClientHello1), RFC 8446 4.4.1 */
         el = 0; memcpy(exts + el, "\x00\x2b\x00\x02\x03\x04", 6); el += 6;
         memcpy(exts + el, "\x00\x33\x00\x02", 4); el += 4; exts[el++] = (u8) (grp >> 8); exts[el++] = (u8) grp;
         if (ff_cookie(k->ff)) { memcpy(exts + el, "\x00\x2c\x00\x12\x00\x10", 6); el += 6; vf_fill(&R, exts + el, 16); el += 16; }
@@ -260,11 +276,14 @@ static void run_k13(void *a_)
     AT("server-hello"); mx_feed(&C, rec, 5 + o); if (C.dead) goto verdict;
 
     /* key schedule with PSK = 0 (and (EC)DHE = 0 when the ServerHello carries no key_share): nothing secret is needed */
-    hmac256(zeros, 32, zeros, 32, early); derive_secret(early, "derived", NULL, 0, derived);
-    if (k->ks) hmac256(derived, 32, shared, sharedl, hsSecret); else hmac256(derived, 32, zeros, 32, hsSecret);
+    if (k->sched == SC_ZERO_EARLY) memset(early, 0, HMAX);
+    else if (k->sched == SC_OTHER_HASH) { int ol = HL == 48 ? 32 : 48; memset(early, 0, HMAX); u8 t[HMAX]; hmac_md(ol, zeros, ol, zeros, ol, t); memcpy(early, t, ol < HL ? ol : HL); }
+    else thmac(zeros, HL, zeros, HL, early);
+    derive_secret(early, "derived", NULL, 0, derived);
+    if (k->ks) thmac(derived, HL, shared, sharedl, hsSecret); else thmac(derived, HL, zeros, HL, hsSecret);
     derive_secret(hsSecret, "s hs traffic", tr, trl, sHs); traffic_keys(sHs, &kHs);
     /* the client derived the same secrets iff it did not mix in a PSK of its own: known by construction for a client without any PSK */
-    crypto_known = k->st == ST_FRESH && k->ks;
+    crypto_known = k->st == ST_FRESH && k->ks && k->sched == SC_STD;
 
 #define SEND_HS(len, name) do { memcpy(tr + trl, hs, (len)); trl += (len); n = protect(&kHs, 22, hs, (len), rec); AT(name); mx_feed(&C, rec, n); if (C.dead) goto verdict; } while (0)
     if (k->ee) { memcpy(hs, "\x08\x00\x00\x06\x00\x04\x00\x2a\x00\x00", 10); SEND_HS(10, "encrypted-extensions"); } else { memcpy(hs, "\x08\x00\x00\x02\x00\x00", 6); SEND_HS(6, "encrypted-extensions"); }
@@ -283,11 +302,11 @@ static void run_k13(void *a_)
         default: break; }
     }
     /* Finished: correct for the transcript the client saw, under the attacker's own (PSK = 0) server handshake traffic secret */
-    hkdf_label(sHs, "finished", NULL, 0, finKey, 32); sha256(tr, trl, h); hmac256(finKey, 32, h, 32, verify);
-    memcpy(hs + 4, verify, 32); hs_hdr(hs, 20, 32); SEND_HS(36, "finished");
+    hkdf_label(sHs, "finished", NULL, 0, finKey, HL); thash(tr, trl, h); thmac(finKey, HL, h, HL, verify);
+    memcpy(hs + 4, verify, HL); hs_hdr(hs, 20, HL); SEND_HS(4 + HL, "finished");
     free(out); out = NULL; n = mx_take(&C, &out); if (wire_alert(out, n) >= 0) alert = wire_alert(out, n);
     /* application data under the attacker's server application traffic secret (transcript ClientHello..server Finished) */
-    derive_secret(hsSecret, "derived", NULL, 0, derived); hmac256(derived, 32, zeros, 32, master); derive_secret(master, "s ap traffic", tr, trl, sAp); traffic_keys(sAp, &kAp);
+    derive_secret(hsSecret, "derived", NULL, 0, derived); thmac(derived, HL, zeros, HL, master); derive_secret(master, "s ap traffic", tr, trl, sAp); traffic_keys(sAp, &kAp);
     if (!C.dead) { n = protect(&kAp, 23, (const u8 *) INJECT, sizeof INJECT - 1, rec); AT("application-data"); mx_feed(&C, rec, n); AT("accepted-everything"); }
 
 verdict:
@@ -298,7 +317,8 @@ verdict:
     if (k->control) {
         int ok = done && C.gotlen == sizeof INJECT - 1 && !memcmp(C.got, INJECT, sizeof INJECT - 1);
         vf_distinct("k13ctl|%s|%s|%s", stname[k->st], cbn[k->cb], scr);
-        if (ok) vf_stat("keyless13_controls_ok", 1);
+        if (k->control == 2) vf_stat(ok ? "k13_probe_legal_fallback_to_other_hash_family_ok" : "k13_probe_legal_fallback_to_other_hash_family_failed", 1);   /* not C04's business: see main() */
+        else if (ok) vf_stat("keyless13_controls_ok", 1);
         else vf_violation("c04:harness:keyless13-control-failed", cur_desc, "the control (same attacker code, but holding the real server key and sending the legal flight %s) did not complete against a %s client with %s: stopped at %s, alert %d, complete=%d, delivered %zu bytes - the attacker's key schedule / record protection is off, the attack cases prove nothing",
                           scr, stname[k->st], cbn[k->cb], stage, alert, done, C.gotlen);
     } else {
@@ -308,10 +328,12 @@ verdict:
         vf_statf(1, "k13_answer_%s_alert%d", ffname[k->ff], alert);
         { char p[40]; if (k->shpsk < 0) snprintf(p, sizeof p, "absent"); else snprintf(p, sizeof p, "%d", k->shpsk); vf_statf(1, "k13_answer_%s_sh-psk-%s%s_alert%d", k->st == ST_FRESH ? "nopsk" : "psk", p, k->ks ? "" : "+no-ks", alert); }
         vf_statf(1, "k13_client_stopped_at_%s", stage);
+        if (k->multi) { static const char *sst[] = { "nopsk", "t256", "early", "x256", "t384", "x384" };
+            vf_statf(1, "k13_mm_%s_picks-%04x_psk-%s_alert%d", sst[k->st], SU->id, k->shpsk < 0 ? "none" : k->shpsk == 0 ? "0" : "other", alert); }
         if (done || data) {
-            char key[300]; snprintf(key, sizeof key, "c04:completed-with-keyless-attacker:tls1.3:%s+%s:%s", stname[k->st], cbn[k->cb], scr);
-            vf_violation(key, cur_desc, "a TLS 1.3 client (state %s, %s) %s%s%s with a peer that holds no certificate key, no PSK and no session secret. Script: %s; all secrets from PSK=0 and the attacker's own (EC)DHE share. ClientHello offered %d PSK identities; client tls13UsingPsk=%d, last alert %d",
-                         stname[k->st], cbn[k->cb], done ? "reports a completed handshake" : "", done && data ? " and " : "", data ? "delivered the attacker's application data" : "", scr, ch.npsk, (int) C.ssl->sec.tls13UsingPsk, alert);
+            char key[400]; snprintf(key, sizeof key, "c04:completed-with-keyless-attacker:tls1.3:%s+%s:%s", stname[k->st], cbn[k->cb], scr);
+            vf_violation(key, cur_desc, "a TLS 1.3 client (state %s, %s) %s%s%s with a peer that holds no certificate key, no PSK and no session secret. Script: %s; suite %04x, Early Secret guessed as %s, everything else from public values and the attacker's own (EC)DHE share. ClientHello offered %d PSK identities; client tls13UsingPsk=%d negotiated suite %04x, last alert %d",
+                         stname[k->st], cbn[k->cb], done ? "reports a completed handshake" : "", done && data ? " and " : "", data ? "delivered the attacker's application data" : "", scr, SU->id, scname[k->sched], ch.npsk, (int) C.ssl->sec.tls13UsingPsk, C.ssl->cipher ? C.ssl->cipher->ident : 0, alert);
         } else {
             vf_stat("keyless13_refused", 1);
             /* a client that holds no PSK at all must have derived exactly the attacker's secrets: bad_record_mac there means the attacker's crypto is wrong */
@@ -326,8 +348,8 @@ static long idx;
 static void one(const k13_t *k)
 {
     long my = idx++; if (!vf_mine(my)) return;
-    char scr[160]; script_name(k, scr, sizeof scr);
-    snprintf(cur_desc, sizeof cur_desc, "k13 %s state=%s cb=%s script=%s", k->control ? "control" : "attack", stname[k->st], cbn[k->cb], scr);
+    char scr[240]; script_name(k, scr, sizeof scr);
+    snprintf(cur_desc, sizeof cur_desc, "k13 %s state=%s cb=%s script=%s", k->control == 1 ? "control" : k->control ? "probe" : "attack", stname[k->st], cbn[k->cb], scr);
     if (vf_case && strcmp(vf_case, cur_desc)) return;
     if (!k->control && my % 211 == 0) vf_sample("%s", cur_desc);
     mx_entropy_seed(vf_seed * 41 + (uint64_t) my);
@@ -344,9 +366,14 @@ int main(int argc, char **argv)
     if (certRsaL < 0 || certEcL < 0 || !keyRsa || !keyEc) { fprintf(stderr, "HARNESS: cannot read the sample certificates\n"); return 2; }
     /* client states, produced once by honest connections before fork()ing (every case starts from a copy of them) */
     mx_entropy_seed(vf_seed * 43 + 5);
-    for (int st = ST_TICKET; st <= ST_EARLY; st++) { matrixSslNewSessionId(&sids[st], NULL); if (prime(sids[st], st == ST_EARLY) != 0) { fprintf(stderr, "HARNESS: priming of client state %s failed\n", stname[st]); return 2; } }
+    for (int st = ST_TICKET; st <= ST_EARLY; st++) { matrixSslNewSessionId(&sids[st], NULL); if (prime(sids[st], st == ST_EARLY, 0x1301) != 0) { fprintf(stderr, "HARNESS: priming of client state %s failed\n", stname[st]); return 2; } }
     if (sids[ST_EARLY]->psk->params == NULL || sids[ST_EARLY]->psk->params->maxEarlyData == 0) { fprintf(stderr, "HARNESS: the ticket does not allow early data\n"); return 2; }
     mx_load_tls13_psk = 1; extpskKeys = mx_mkkeys(NULL, NULL, mx_ca_both); mx_load_tls13_psk = 0;
+    /* PSKs bound to the other hash family: a ticket issued in a TLS_AES_256_GCM_SHA384 session, an external 48-byte PSK (the library takes the length as SHA-384) */
+    matrixSslNewSessionId(&sids[ST_TICKET384], NULL); if (prime(sids[ST_TICKET384], 0, 0x1302) != 0) { fprintf(stderr, "HARNESS: priming of client state %s failed\n", stname[ST_TICKET384]); return 2; }
+    if (tls13GetPskHashLen(sids[ST_TICKET384]->psk) != 48 || tls13GetPskHashLen(sids[ST_TICKET]->psk) != 32) { fprintf(stderr, "HARNESS: tickets are not bound to the expected hash\n"); return 2; }
+    { static const unsigned char id384[] = "mypsksha384"; unsigned char k48[48]; for (int i = 0; i < 48; i++) k48[i] = (unsigned char) (0x51 + 3 * i);
+      extpsk384Keys = mx_mkkeys(NULL, NULL, mx_ca_both); if (matrixSslLoadTls13Psk(extpsk384Keys, k48, 48, id384, sizeof id384 - 1, NULL) < 0) { fprintf(stderr, "HARNESS: cannot load a 48-byte external PSK\n"); return 2; } }
 
     int nff = vf_thorough ? FF_N : FF_QUICK_N, nsp = vf_thorough ? SHPSK_N : SHPSK_QUICK_N, nt = vf_thorough ? T_N : T_QUICK_N, ncl = vf_thorough ? CL_N : 2;
     static const int clq[CL_N] = { CL_DEFAULT, CL_TWO, CL_X25519, CL_P256 };   /* quick: the default share (P-256) and a client offering x25519 + P-256 */
@@ -356,6 +383,22 @@ int main(int argc, char **argv)
         for (int cl = 0; cl < ncl; cl++) for (int ff = 0; ff < nff; ff++) for (int sp = 0; sp < nsp; sp++) for (int ks = 1; ks >= 0; ks--) for (int ee = 0; ee < (st == ST_EARLY ? 2 : 1); ee++) for (int t = 0; t < nt; t++) {
             if (ee && FF_IS_HRR(ff) && !vf_thorough) continue;                   /* early data is off after a HelloRetryRequest */
             k13_t k = { st, cb, clq[cl], ff, shpsk_val[sp], ks, ee, t, 0 }; one(&k);
+        }
+    }
+    /* PSK hash vs. suite hash: the client offers all three TLS 1.3 suites and holds a PSK bound to SHA-256 or SHA-384 (or none); the attacker's ServerHello picks a suite of
+       either hash family, selects identity 0 (or none), and guesses the client's Early Secret three ways.  RFC 8446 4.2.11: the client must abort when the selected PSK's hash is not the suite's. */
+    static const int mst[] = { ST_TICKET384, ST_TICKET, ST_EXTPSK384, ST_EXTPSK, ST_FRESH };
+    static const int mff_q[] = { FF_NONE }, mff_t[] = { FF_NONE, FF_OTHER, FF_OTHER_PSK0, FF_OTHER_COOKIE }, msp_q[] = { 0, -1 }, msp_t[] = { 0, -1, 1, 65535 }, mt_q[] = { T_FIN, T_CERT_CVRAND_FIN };
+    int nmff = vf_thorough ? 4 : 1, nmsp = vf_thorough ? 4 : 2, nmt = vf_thorough ? T_N : 2;
+    for (int i = 0; i < 5; i++) for (int cb = 0; cb < (vf_thorough ? 2 : 1); cb++) {
+        int st = mst[i];
+        /* controls with the real key under each suite.  A client that holds a TICKET of one hash family and meets a (legal) server that declines it and picks a suite of the other family is only probed:
+           the unchanged library fails that handshake with bad_record_mac (the client presets ssl->cipher from the session and then keeps a transcript hash for that family only) - an interoperability defect, not an authentication one */
+        for (int su = 0; su < NSUITES; su++) for (int h = 0; h < (st == ST_FRESH ? 2 : 1); h++) {
+            int probe = (st == ST_TICKET && suites[su].hl != 32) || (st == ST_TICKET384 && suites[su].hl != 48);
+            k13_t k = { st, cb, CL_DEFAULT, h ? FF_OTHER_COOKIE : FF_NONE, -1, 1, 0, T_LEGAL_RSA, probe ? 2 : 1, su, 1, SC_STD }; one(&k); }
+        for (int su = 0; su < NSUITES; su++) for (int f = 0; f < nmff; f++) for (int sp = 0; sp < nmsp; sp++) for (int ks = 1; ks >= 0; ks--) for (int sc = 0; sc < SC_N; sc++) for (int t = 0; t < nmt; t++) {
+            k13_t k = { st, cb, CL_DEFAULT, vf_thorough ? mff_t[f] : mff_q[f], vf_thorough ? msp_t[sp] : msp_q[sp], ks, 0, vf_thorough ? t : mt_q[t], 0, su, 1, sc }; one(&k);
         }
     }
     matrixSslClose(); vf_flush();
